@@ -287,9 +287,45 @@ void checkOrder(Ctx &c, const KnotCase &kc) {
   }
 }
 
+// A long-lived generator object: created in an earlier case, asked again and
+// again while other grids and generators come and go. It must keep returning
+// the same basis, and that basis must keep matching its knots.
+template <typename T>
+void persistentGeneratorCase(Ctx &c, Rng &g) {
+  static std::optional<bspline::BSplineGenerator<T>> gen;
+  static std::vector<R> knots;
+  static std::vector<bspline::Spline<T, 3>> first;
+  const bool wellScaled = !ST<T>::exact;
+  if (!gen || c.caseId % 1024 == 33) {
+    const std::vector<R> d = genGrid(g, wellScaled, 4, 9);
+    knots.clear();
+    for (size_t i = 0; i < d.size(); i++)
+      for (size_t r = 0, m = (size_t)g.range(1, 3); r < m; r++) knots.push_back(d[i]);
+    gen.emplace(mkVec<T>(knots));
+    first = gen->template generateBSplines<3>();
+    return;
+  }
+  const auto again = gen->template generateBSplines<3>();
+  const auto ref = model::coxDeBoor(knots, 3);
+  bool same = again.size() == first.size() && again.size() == ref.size();
+  for (size_t i = 0; same && i < again.size(); i++)
+    same = again[i] == first[i] && agreeSpline(again[i], ref[i]).ok &&
+           again[i].getSupport().getGrid().getData() ==
+               first[i].getSupport().getGrid().getData();
+  if (!same)
+    c.violation("C01", "generator/long-lived-generator-changed",
+                "a generator created in an earlier case returns a different "
+                "order-3 basis now; knots " + gridStr(knots));
+  c.count("persistent-generator:checked");
+}
+
 template <typename T>
 void runCase(Ctx &c) {
   Rng g = c.rng();
+  if (c.caseId % 64 == 33 && !c.param("enum", 0)) {
+    persistentGeneratorCase<T>(c, g);
+    return;
+  }
   const bool wellScaled = !ST<T>::exact || c.param("wellscaled", 0);
   // Floating types only: half of the cases are rescaled by an exact power of
   // two (no overflow/underflow by construction: (3+|e|)*p stays far inside
